@@ -205,13 +205,40 @@ def setup(M):
                     "nth_of raised wrongly", x=_d(x), n=n, wd=int(wd), exc=repr(e), want=str(want))
         return post, exc
 
+    P_WD = M.pendulum.WeekDay
+
+    def raised(cls, name, unit_at):
+        """next/previous/first_of/last_of always have an answer for a valid weekday (and unit): raising is a violation"""
+        def exc(e, a, k, snap):
+            x = a[0]
+            if not ok_input(x):
+                return
+            if unit_at is not None:
+                unit = a[1] if len(a) > 1 else k.get("unit")
+                if unit not in ("month", "quarter", "year"):
+                    return
+            wd = a[unit_at + 1 if unit_at is not None else 1] if len(a) > (unit_at + 1 if unit_at is not None else 1) else k.get("day_of_week")
+            if wd is not None and not (type(wd) is int or isinstance(wd, P_WD)) or (wd is not None and not 0 <= int(wd) <= 6):
+                return
+            M.check(name, False, f"C16/{cls.__name__}.{name}:raised-{type(e).__name__}", f"{name} raised for a valid weekday", x=_d(x),
+                    args=repr(a[1:])[:80], exc=repr(e)[:120])
+        return exc
+
     for cls in (DateTime, Date):
-        M.contract(cls, "next", post=nav(cls, "next", 1), label=f"{cls.__name__}.next")
-        M.contract(cls, "previous", post=nav(cls, "previous", -1), label=f"{cls.__name__}.previous")
-        M.contract(cls, "first_of", post=fl(cls, "first_of", False), label=f"{cls.__name__}.first_of")
-        M.contract(cls, "last_of", post=fl(cls, "last_of", True), label=f"{cls.__name__}.last_of")
+        M.contract(cls, "next", post=nav(cls, "next", 1), exc=raised(cls, "next", None), label=f"{cls.__name__}.next")
+        M.contract(cls, "previous", post=nav(cls, "previous", -1), exc=raised(cls, "previous", None), label=f"{cls.__name__}.previous")
+        M.contract(cls, "first_of", post=fl(cls, "first_of", False), exc=raised(cls, "first_of", 1), label=f"{cls.__name__}.first_of")
+        M.contract(cls, "last_of", post=fl(cls, "last_of", True), exc=raised(cls, "last_of", 1), label=f"{cls.__name__}.last_of")
         p, e = nth(cls)
         M.contract(cls, "nth_of", post=p, exc=e, label=f"{cls.__name__}.nth_of")
+
+
+def _quiet(f, *a, **k):
+    """call into the library; whatever it raises has been judged by the contract on that method"""
+    try:
+        return f(*a, **k)
+    except Exception:  # noqa: BLE001
+        return None
 
 
 NS = [1, 2, 3, 4, 5, 6, 7, 13, 14, 15, 52, 53, 54]
@@ -224,6 +251,9 @@ def cases(M):
     names = gen.all_zones()
     # month shapes: 14 year types (start weekday x leap) covered by a 28-year window + century edges
     years = (list(range(2000, 2028)) + [1900, 2100, 4, 9995]) if thorough else (list(range(2000, 2028, 4)) + [2001, 2003, 1900, 4, 9995])
+    # history: units that start on the same weekday but differ in length (February, first quarter and year of a leap
+    # vs a common year) visited one after the other in ONE process, in both orders (anything memoised per unit shape)
+    yield {"k": "history", "order": M.shard % 2, "kind": ("date", "utc", "zone")[M.shard % 3]}
     j = 0
     for y in years:
         for mo in range(1, 13):
@@ -278,25 +308,47 @@ def run(M, c):
         fw = dt.date(y, mo, 1).weekday()
         for wd in range(7):
             w = WD(wd)
-            x.next(w)
-            x.previous(w)
+            _quiet(x.next, w)
+            _quiet(x.previous, w)
             if kind not in ("date",):
-                x.next(w, keep_time=True)
-                x.previous(w, keep_time=True)
+                _quiet(x.next, w, keep_time=True)
+                _quiet(x.previous, w, keep_time=True)
             for unit in ("month", "quarter", "year"):
-                x.first_of(unit, w)
-                x.last_of(unit, w)
+                _quiet(x.first_of, unit, w)
+                _quiet(x.last_of, unit, w)
                 for n in (NS if (M.tier == "thorough" or unit == "month") else NS_Q):
                     M.cls(kind, unit, wd, n, dim, fw)
-                    try:
-                        x.nth_of(unit, n, w)
-                    except P.exceptions.PendulumException:
-                        pass
-        x.next()
-        x.previous()
+                    _quiet(x.nth_of, unit, n, w)
+        _quiet(x.next)
+        _quiet(x.previous)
         for unit in ("month", "quarter", "year"):
-            x.first_of(unit)
-            x.last_of(unit)
+            _quiet(x.first_of, unit)
+            _quiet(x.last_of, unit)
+        return
+    if c.get("k") == "history":
+        WD = P.WeekDay
+        bywd = {}
+        for y in range(1996, 2060):
+            bywd.setdefault((dt.date(y, 2, 1).weekday(), calendar.isleap(y)), y)
+        for fw in range(7):
+            pair = [bywd.get((fw, False)), bywd.get((fw, True))]
+            if None in pair:
+                continue
+            if c["order"]:
+                pair.reverse()
+            for y in pair:
+                for mo, day in ((2, 10), (1, 20), (3, 31)):
+                    x = P.Date(y, mo, day) if c["kind"] == "date" else P.DateTime(y, mo, day, 9, 30, tzinfo=P.UTC if c["kind"] == "utc" else P.timezone("Europe/Paris"))
+                    for wd in range(7):
+                        for unit in ("month", "quarter", "year"):
+                            _quiet(x.first_of, unit, WD(wd))
+                            _quiet(x.last_of, unit, WD(wd))
+                            for n in (1, 4, 5, 13, 14, 53):
+                                _quiet(x.nth_of, unit, n, WD(wd))
+                        _quiet(x.next, WD(wd))
+                        _quiet(x.previous, WD(wd))
+                M.cls("history", fw, y, c["order"], c["kind"])
+        M.sample(c)
         return
     # transitions at midnight: start `back` days before the affected date and navigate onto it
     zn = c["zn"]
@@ -359,5 +411,5 @@ def run(M, c):
                 m.first_of(unit)
             if target == lastd:
                 m.last_of(unit)
-        except P.exceptions.PendulumException:
+        except Exception:  # noqa: BLE001 - the contracts have judged whatever was raised
             pass
